@@ -791,7 +791,7 @@ impl ExtensionStore {
         let mut num_originals = 0;
 
         // :outer
-        for i in (0..=(selectors.len().saturating_sub(1))).rev() {
+        for i in (0..selectors.len()).rev() {
             let mut should_continue_to_outer = false;
             let complex1 = selectors.get(i).unwrap();
             if is_original(complex1) {
